@@ -91,7 +91,7 @@ CHECKS = {
          "Trusts the 40-line independent scanner; length for indexes > 65535 and for mixed $n/? queries is not asserted (only totality and the bound).",
          "DESIGN.md §3 C20"),
  "C05": ("model_checking",
-         "exhaustive enumeration of handler programs (result-writer op sequences x statement counts x parser outcomes) executed on a real server over an in-memory transport; every writer call and cycle compared with a reference state machine",
+         "exhaustive enumeration of handler programs (result-writer op sequences x statement counts x parser outcomes) executed on a real server over an in-memory transport; every writer call and cycle compared with a reference state machine; stateless schedule exploration (cooperative scheduler, preemption-bounded DFS with happens-before state caching) of multi-statement queries overlapping Close",
          "Handler behaviour is an enumerated input: every sequence of <=4 (quick) / <=6 (thorough) result-writer operations over a 10-op alphabet x {return nil, error} x {0,2 columns}, products of 2-3 statements, parser error / zero statements / blank queries, each as first and as second Query of a connection, is executed on a fresh real Server; bytes emitted by each writer call are attributed exactly and compared with the writer state machine and the cycle grammar.",
          "Reply attribution relies on quiescence of the in-memory transport. Not asserted: T for column-less statements, C for statements returning nil without Complete, calls after a successful Empty() beyond return<=>emission consistency.",
          "DESIGN.md §3 C05"),
@@ -109,25 +109,25 @@ CHECKS = {
 
 # sentences appended to the level texts above (families added after the seeded-change waves, DESIGN.md §9.4)
 ADD = {
- "C14": " Headers with an extension area of 1 / 7 / 40 bytes x every single cut and double cuts around the header; values of 65535 / 65536 / 70000 bytes (thorough up to 1 MiB) under 9 splits.",
- "C07": " Portal re-binding: every ordered pair of ~50 Bind shapes (statement of 1 / 2 columns, 0-3 parameters, 0 / 1 / per-item codes) on the unnamed and a named portal, differential against a connection where only the second Bind happened.",
- "C01": " Schedule part (merged into the same evidence): two connections authenticating at the same time — both accepted (S-G) / one accepted and one rejected with a pipelined Query (S-J) — explored under the cooperative scheduler with the race monitor: all schedules up to 2 preemptions (thorough: all schedules); every connection must receive exactly what it receives when served alone. TLS family: servers requesting / requiring a client certificate x clients presenting an unverified one x accepted / rejected password: the decrypted session equals the plaintext one (a rejected password stays rejected).",
- "C02": " F4: one-column rows over the whole C09 value alphabet (types x boundary values x source forms x NULL forms) x {text, binary}. Sessions also cover every value 0..255 of the Describe / Close target byte and of the message type byte, statements declaring up to 65535 parameters, and column names / command tags of every length 1..130 and around 256. Schedule part: scenario W3 explores the sync.Pool shim's oldest-first policy.",
- "C03": " Declared-length family: 6 positions (first message, after a query, inside a batch, inside text / binary COPY, awaiting the password) x 15 message types x 15 declared lengths (limit+5 ... 2^31-1, 2^31, 2^31+24, 2^32-1) followed by 0/1/40 framed queries and EOF: no byte behind an incomplete header may be interpreted as a message. Starter-surplus family: 5 statement-starting messages (Query / Execute starting a text / binary COPY) x 9 surplus contents: callbacks compared with the surplus-free run. Earlier-message family: every Bind shape (0-4 format codes x 0-4 values) processed before every well-formed Bind; what the statement observes is compared with the run without the earlier Bind.",
+ "C14": " Headers with an extension area of 1 / 7 / 40 bytes x every single cut and double cuts around the header; values of 65535 / 65536 / 70000 bytes (thorough up to 1 MiB) under 9 splits. Per-connection types: connections whose type maps bind one OID to different types copy the same bytes one after the other.",
+ "C07": " Portal re-binding: every ordered pair of ~50 Bind shapes (statement of 1 / 2 columns, 0-3 parameters, 0 / 1 / per-item codes) on the unnamed and a named portal, differential against a connection where only the second Bind happened. Statement re-definition with blank and non-blank texts, differential against a connection that only saw the second definition; earlier portals are described before they are re-bound.",
+ "C01": " Schedule part (merged into the same evidence): two connections authenticating at the same time — both accepted (S-G) / one accepted and one rejected with a pipelined Query (S-J) — explored under the cooperative scheduler with the race monitor: all schedules up to 2 preemptions (thorough: all schedules); every connection must receive exactly what it receives when served alone. TLS family: servers requesting / requiring a client certificate x clients presenting an unverified one x accepted / rejected password: the decrypted session equals the plaintext one (a rejected password stays rejected). Log-in sequences: all sequences of 2-3 attempts over 5 (database, user, password) triples on one server whose validator accepts exactly one triple; a validator answering (true, error) counts as a failure.",
+ "C02": " F4: one-column rows over the whole C09 value alphabet (types x boundary values x source forms x NULL forms) x {text, binary}. Sessions also cover every value 0..255 of the Describe / Close target byte and of the message type byte, statements declaring up to 65535 parameters, and column names / command tags of every length 1..130 and around 256. Schedule part: scenario W3 explores the sync.Pool shim's oldest-first policy. Rows with values of 4000..70000 bytes in both protocols; a statement / portal described again and again.",
+ "C03": " Declared-length family: 6 positions (first message, after a query, inside a batch, inside text / binary COPY, awaiting the password) x 15 message types x 15 declared lengths (limit+5 ... 2^31-1, 2^31, 2^31+24, 2^32-1) followed by 0/1/40 framed queries and EOF: no byte behind an incomplete header may be interpreted as a message. Starter-surplus family: 5 statement-starting messages (Query / Execute starting a text / binary COPY) x 9 surplus contents: callbacks compared with the surplus-free run. Earlier-message family: every Bind shape (0-4 format codes x 0-4 values) processed before every well-formed Bind; what the statement observes is compared with the run without the earlier Bind. Truncated-stream family: 7 canonical sessions cut after every byte.",
  "C04": " Transport faults also with the input arriving byte by byte (the failure strikes exactly when the server has consumed b bytes); a failed transport read over and over counts as a livelock. Repetition family: 23 protocol units repeated up to 20 000 (thorough 100 000) times on one connection, live-heap and goroutine-stack growth bounded independently of the count. Stalled-client family: a connection parked in each of 11 protocol states while two further connections must be served completely. Helper-amplification family: short queries naming huge positional indexes through Query and Parse, allocation bounded at 64 MiB.",
- "C05": " Neighbour family: 7 programs x 5 states of another connection of the same server (discarding until Sync, inside COPY-in, inside an extended batch, not started, after a failed query); the neighbour is completed afterwards and must be undisturbed. Command tags of every length 0..130 and around 256, 1024, 4096.",
+ "C05": " Neighbour family: 7 programs x 5 states of another connection of the same server (discarding until Sync, inside COPY-in, inside an extended batch, not started, after a failed query); the neighbour is completed afterwards and must be undisturbed. Command tags of every length 0..130 and around 256, 1024, 4096. Statement and parser errors wrapping io.EOF / io.ErrUnexpectedEOF. Schedule part (merged): queries of two statements overlapping Close (scenarios Q1, Q2; all schedules up to 2 preemptions, thorough: all schedules of Q1) are answered completely or not at all.",
  "C06": " Pending-input family: core-16 histories of length <=3 (4 thorough) with every message delivered together with the first 1 / 5 (thorough also 4 / all but the last) bytes of the next one: the reply is due before the rest arrives. The close-core alphabet contains a Parse with more than 4 KiB of text (names defined before it must still resolve).",
- "C08": " Every portal is executed a second time (same parameters); wide statements of 255, 256, 32767, 32768, 40000 and 65535 parameters through Describe and Bind/Execute. Parameters of a type registered only on the connection's own type map (session middleware) in both formats; portal names of 32..1001 bytes that differ only in their last byte or in length.",
- "C09": " Redefined statements: a name defined twice (1-3 columns each, both formats) while a portal of the first definition is open; every DataRow is judged against the RowDescription of its own portal.",
- "C10": " Position 'inside a TLS-upgraded session': limits 1 KiB / 8 KiB / 20000 x Query and Bind bodies of L-1, L, L+1, 2L, 16383..16385, 20000, 70000 bytes, differential against the plaintext session. Several oversized messages of different sizes in one session (bodies are runs of framed queries); values spanning several within-limit CopyData messages are processed.",
- "C11": " TLS-limit family: configured limits 1 KiB / 16 KiB / 64 KiB (9 limits thorough) x Query / Bind bodies around the limit and around the 16 KiB TLS record size. Cleartext authentication (accepted / rejected) over the upgraded connection; servers requesting / requiring a client certificate x clients presenting an unverified one; a session arriving after 1..40 earlier clients failed their handshakes on the same server.",
- "C12": " 10 further configurations hand a second user-supplied map to an earlier GlobalParameters option: neither map is ever modified. The schedule part also covers scenario S-G (two cleartext-password start-ups interleaving). Start-up packets of <=2 pairs, a malformed packet and a CancelRequest are also delivered in the same segment as a refused SSLRequest.",
- "C13": " Payload family: all sequences of <=2 CopyData payloads over 11 look-alike payloads (the text format's end-of-data marker, \\N, NUL, 0xFF, a framed CopyDone ...) x {drain, take1} x {CopyDone, CopyFail}. Extended protocol: every Bind result-format section x both copy formats x 1 / 3 columns (CopyInResponse announces the handler's format).",
- "C15": " Scenario S-J (thorough): one accepted and one rejected authentication at the same time.",
- "C16": " Scenario X9: Close while a statement is inside COPY-in. X10: one Server serving two listeners (every Serve call returns). X11: two Query messages arriving in one segment. After all Close calls returned every Serve call must return while the clients are still connected.",
- "C17": " 25 letters now (hint / detail / base texts with % verbs, a second function at a file and line used before); consecutive family: every 1-letter error followed by every error of <=2 letters, the second one checked (nothing of an earlier report may show in a later one). Text-length family: each of message / hint / detail / constraint / source file / source function at every length 1..130 and around 256, 1024, 4096.",
- "C18": " Letters also close the portals / statements whose values were retained and re-define those names (21 / 20 letters). The parameter list handed to the statement function is retained as well; two batches on the unnamed statement / portal (23 / 22 letters).",
- "C19": " The failing middleware returns either its context or a nil context with the error. Transport-fault family: 3 configurations x histories of <=2 letters x the k-th write (k <= 8) after the start-up failing for good: every command context is cancelled once the connection has ended.",
+ "C08": " Every portal is executed a second time (same parameters); wide statements of 255, 256, 32767, 32768, 40000 and 65535 parameters through Describe and Bind/Execute. Parameters of a type registered only on the connection's own type map (session middleware) in both formats; portal names of 32..1001 bytes that differ only in their last byte or in length. Types pre-declared by the client in Parse: a later statement (same or another connection) is described with exactly the handler's list, which is never written to.",
+ "C09": " Redefined statements: a name defined twice (1-3 columns each, both formats) while a portal of the first definition is open; every DataRow is judged against the RowDescription of its own portal. Go strings / byte slices for non-text columns: the row is refused or decodable in the announced format.",
+ "C10": " Position 'inside a TLS-upgraded session': limits 1 KiB / 8 KiB / 20000 x Query and Bind bodies of L-1, L, L+1, 2L, 16383..16385, 20000, 70000 bytes, differential against the plaintext session. Several oversized messages of different sizes in one session (bodies are runs of framed queries); values spanning several within-limit CopyData messages are processed. Oversized start-up / password messages of which only the header is sent end the connection at once.",
+ "C11": " TLS-limit family: configured limits 1 KiB / 16 KiB / 64 KiB (9 limits thorough) x Query / Bind bodies around the limit and around the 16 KiB TLS record size. Cleartext authentication (accepted / rejected) over the upgraded connection; servers requesting / requiring a client certificate x clients presenting an unverified one; a session arriving after 1..40 earlier clients failed their handshakes on the same server. Whole sessions of <=2 letters (with and without authentication) sent in one write together with the start-up packet.",
+ "C12": " 10 further configurations hand a second user-supplied map to an earlier GlobalParameters option: neither map is ever modified. The schedule part also covers scenario S-G (two cleartext-password start-ups interleaving). Start-up packets of <=2 pairs, a malformed packet and a CancelRequest are also delivered in the same segment as a refused SSLRequest. CloseConn / TerminateConn hooks are counted for CancelRequests; the schedule part also covers S-K / S-L (3 and 7 configured parameters).",
+ "C13": " Payload family: all sequences of <=2 CopyData payloads over 11 look-alike payloads (the text format's end-of-data marker, \\N, NUL, 0xFF, a framed CopyDone ...) x {drain, take1} x {CopyDone, CopyFail}. Extended protocol: every Bind result-format section x both copy formats x 1 / 3 columns (CopyInResponse announces the handler's format). Binary-cut family: the client completes a binary COPY whose stream stops inside the header, a count, a length or a value (every offset, one or two CopyData messages).",
+ "C15": " Scenario S-J (thorough): one accepted and one rejected authentication at the same time. Silent-neighbour family: a connection that does nothing at all in each of 11 protocol states while two others are served completely.",
+ "C16": " Scenario X9: Close while a statement is inside COPY-in. X10: one Server serving two listeners (every Serve call returns). X11: two Query messages arriving in one segment. After all Close calls returned every Serve call must return while the clients are still connected. X12: a connection ending with a malformed message next to a normal one + Close + second Close.",
+ "C17": " 25 letters now (hint / detail / base texts with % verbs, a second function at a file and line used before); consecutive family: every 1-letter error followed by every error of <=2 letters, the second one checked (nothing of an earlier report may show in a later one). Text-length family: each of message / hint / detail / constraint / source file / source function at every length 1..130 and around 256, 1024, 4096. Every shape of the session family is reported from a lone statement, from inside multi-statement queries, from the parser and through Execute.",
+ "C18": " Letters also close the portals / statements whose values were retained and re-define those names (21 / 20 letters). The parameter list handed to the statement function is retained as well; two batches on the unnamed statement / portal (23 / 22 letters). At the end the connection is closed and another client is served; everything retained is checked again.",
+ "C19": " The failing middleware returns either its context or a nil context with the error. Transport-fault family: 3 configurations x histories of <=2 letters x the k-th write (k <= 8) after the start-up failing for good: every command context is cancelled once the connection has ended. Several-users family: all step sequences of length <=5 over 3 users connected at the same time (with / without global parameters), every callback probing the context of its own connection.",
  "C20": " Long family: a block repeated up to 70 000 (thorough 200 000) times with a tail that introduces a new highest index (the number of markers, not the index, crosses 65535). Redefine family: a statement name parsed twice, Describe announces the count of the latest text. Blank query texts are part of the describe and redefine families.",
 }
 NOT_APPLICABLE = {
